@@ -4,6 +4,8 @@
 (*                                                                         *)
 (* Mirrors (file:function -> action / operator):                           *)
 (*   mod/mod.go:Apply, option loop            -> ChooseOpt, LoadOptions    *)
+(*     (`want` options are passed; `place` is the target form WithRefTgt   *)
+(*     selects, `src` whether the source is a registry or an OCI layout)   *)
 (*     (every option only registers steps in one of four lists; the lists  *)
 (*     are run phase by phase, so only the relative order inside a list    *)
 (*     matters: RegM / RegC / RegL / RegF)                                 *)
@@ -40,7 +42,7 @@
 (* harness/cmd/c13drv (static effect tables ChgM / ChgC / FileEff written   *)
 (* from the option documentation for exactly those images); attestation    *)
 (* children, foreign layers and WithManifestToOCIReferrers are driven on    *)
-(* the real code but not predicted here.  The four Fix* constants switch    *)
+(* the real code but not predicted here.  The five Fix* constants switch    *)
 (* between the code as it is (FALSE) and the repaired design (TRUE):        *)
 (*   FixData   dagPut index branch takes the child's body for `data`        *)
 (*   FixWriter the per-file rewrite compresses by the current media type    *)
@@ -71,9 +73,8 @@ vars == <<img, place, src, want, prog, pc, kids, topm, st, w, err>>
 (* sequences *)
 InsAt(s, i, e) == SubSeq(s, 1, i - 1) \o <<e>> \o SubSeq(s, i, Len(s))
 DelAt(s, i)    == SubSeq(s, 1, i - 1) \o SubSeq(s, i + 1, Len(s))
-PutAt(s, i, e)    == [s EXCEPT ![i] = e]
+PutAt(s, i, e) == [s EXCEPT ![i] = e]
 FoldL(f(_, _), acc, s) == FoldLeft(f, acc, s)
-SelectIdx(s, P(_)) == {i \in 1..Len(s) : P(s[i])}
 RECURSIVE SetToSortedSeq(_)
 SetToSortedSeq(S) == IF S = {} THEN <<>> ELSE LET m == CHOOSE x \in S : \A y \in S : x <= y
                                               IN <<m>> \o SetToSortedSeq(S \ {m})
@@ -117,12 +118,12 @@ Child(im, p) ==
    cfgalg |-> "sha256", malg |-> "sha256", pushed |-> FALSE, cfgpushed |-> FALSE]
 
 Same == place # "cross"
-NewTag == place \in {"same-tag", "cross"}
 
 ----------------------------------------------------------------------------
 (* option vocabulary: which step lists an option registers in *)
 RegM(o) == o.k \in {"AddLayer", "RmIndex", "RmCreatedBy", "Annotation", "AnnotationBase", "AnnotationPromote",
-                    "LabelToAnnotation", "ManifestDigest", "DigestAlgo", "ToOCI", "ToDocker", "Rebase"}
+                    "LabelToAnnotation", "ManifestDigest", "DigestAlgo", "ToOCI", "ToDocker", "Rebase",
+                    "ToOCIReferrers", "ExternalURLsRm"}      \* (the last two: no-ops on the images modelled here)
 RegC(o) == \/ o.k \in {"Label", "Env", "Cmd", "Entrypoint", "ExposeAdd", "ExposeRm", "VolumeAdd", "VolumeRm",
                        "BuildArgRm", "ConfigTime", "ConfigDigest", "DigestAlgo"}
            \/ o.k \in {"LayerTime", "FileTarTime"} /\ o.a = "label"
